@@ -800,6 +800,11 @@ def asset_name(env):
         seq = ["", "1", "10", "2", "11", "21", "12", "100", "3", "13", "101", "20", "4", "14", "110", "5", "15", "111", "22", "6", "16", "7"]
         return fam + (seq[n] if n < len(seq) else "_%d" % n)
     pool = ["a%d", "A_%d", "%d", "a%d_x", "as %d"]
+    odd = getattr(env, "odd_names", None)
+    if odd == "case":
+        return ("CHP_%d" if n % 2 == 0 else "chp_%d") % (n // 2)      # names that differ in case only (consecutive assets)
+    if odd == "blanks":
+        return env.rng.choice(["unit [zone  %d]", "CHP  %d", " plant %d "]) % n      # runs of blanks, brackets, surrounding blanks
     if getattr(env, "date_names", False) and n < 27:
         # names are free text: a product called after its delivery day
         return env.rng.choice(["2021-01-%02d", "2021-01-%02d 00:00:00", "2021-01-%02dT06:00:00"]) % (n + 1)
